@@ -762,11 +762,8 @@ func checkPriorityQueueBound(r *Reporter, p *Prog) {
 	// removal handle is idempotent
 	if fdp := p.FuncDecl(pkg, "PriorityQueue", "Push"); fdp != nil {
 		ok := false
-		ast.Inspect(fdp.Body, func(n ast.Node) bool {
-			lit, isLit := n.(*ast.FuncLit)
-			if !isLit {
-				return true
-			}
+		// the handle: a literal, or a method of a handle struct returned as a method value
+		for _, lit := range callbacksIn(p, p.Pkg(pkg).TypesInfo, fdp.Body) {
 			lf := newFuncCFG(p, p.Pkg(pkg).TypesInfo, lit.Body, "remove handle")
 			rem := lf.Find(func(m ast.Node) bool {
 				cl, isCall := m.(*ast.CallExpr)
@@ -780,8 +777,7 @@ func checkPriorityQueueBound(r *Reporter, p *Prog) {
 					ok = true
 				}
 			}
-			return false
-		})
+		}
 		if ok {
 			r.Pass("pair/removal-handle", pkg+".PriorityQueue.Push", p.posStr(fdp.Pos()), "the removal handle removes only while the element's index is not -1 (idempotent)")
 		} else {
